@@ -134,8 +134,13 @@ func needsEscape(s string) bool {
 	return false
 }
 
-func TestC14(t *testing.T) {
-	rapid.Check(t, func(t *rapid.T) {
+func TestC14(t *testing.T) { rapid.Check(t, propC14) }
+
+// FuzzC14 drives the same property with coverage-guided bytes (thorough tier only).
+func FuzzC14(f *testing.F) { f.Fuzz(rapid.MakeFuzz(propC14)) }
+
+func propC14(t *rapid.T) {
+	{
 		base := genJSONTable(t)
 		d := hx.GenDerived(t, base, 4)
 		in := d.Input(t)
@@ -255,5 +260,5 @@ func TestC14(t *testing.T) {
 			classes = append(classes, "has-NaN")
 		}
 		evC14.Case(escape && fraction, desc, classes...)
-	})
+	}
 }
